@@ -14,14 +14,15 @@ from plasTeX.DOM import Node
 
 PROP = 'C13'
 LEVEL = 'model_checking'
-FUNCTIONS = ['plasTeX.Renderers:Renderable.filename', 'plasTeX.Renderers:Renderable.__str__', 'plasTeX.Renderers:Renderer.cacheFilenames', 'plasTeX.Renderers:Renderer.render',
+FUNCTIONS = ['plasTeX.Base.LaTeX.Sectioning:SectionUtils.footnotes', 'plasTeX.Filenames:Filenames.addExtension', 'plasTeX.Renderers:Renderable.filename', 'plasTeX.Renderers:Renderable.__str__', 'plasTeX.Renderers:Renderer.cacheFilenames', 'plasTeX.Renderers:Renderer.render',
              'plasTeX.Renderers:Renderer.cleanup', 'plasTeX.Renderers:mixin', 'plasTeX.Renderers:unmix', 'plasTeX.Filenames:Filenames._newFilename', 'plasTeX.Filenames:Filenames.parseFilenames']
 RULE = ('one evaluation = one path = one document skeleton x filename template x one class of the split level (and of the title characters); '
         'non-trivial = at least two files are produced')
 BOUNDS = {
     'quick': '4 skeletons (article to 3 levels with starred units and a footnote; book with chapters; flat; sections only) x 6 filename templates (default, static list + $num, '
              'bracket without blank, blank without bracket, $title alternatives, a single file name) x split level as an unbounded-in-range z3 integer in [-10, 6]; '
-             'the first title made of 2 symbolic characters over {a, blank, (, |}',
+             'the first two titles made of 2 symbolic characters (over {a, blank, (, |} and {a, blank}: equal titles, titles of forbidden characters only); renderer file extension '
+             '.html / .xhtml / none; footnotes at three depths: each is listed by exactly the unit that produces the file holding its mark',
     'thorough': 'as quick with titles of 3 symbolic characters and two more skeletons',
 }
 ASSUMPTIONS = ['the renderer is the real base Renderer (no templates: every element falls back to its default hook), so what is checked is the Python-level file routing; '
@@ -32,8 +33,8 @@ BUDGET_S = {'quick': 900, 'thorough': 3300}
 BAD = ': #$%^&*!~`"\'=?/{}[]()|<>;\\,.'
 # (class, [(command, starred, marker words...)])   level: chapter 0, section 1, subsection 2, subsubsection 3
 SKELETONS = {
-    'article3': ('article', [('-', 'm0'), ('section', 'm1'), ('subsection', 'm2', 'FN'), ('subsection*', 'm3'), ('section', 'm4'), ('subsubsection', 'm5'), ('section*', 'm6')]),
-    'book': ('book', [('-', 'm0'), ('chapter', 'm1'), ('section', 'm2'), ('subsection', 'm3'), ('chapter', 'm4'), ('section', 'm5'), ('chapter*', 'm6')]),
+    'article3': ('article', [('-', 'm0'), ('section', 'm1', 'FNa'), ('subsection', 'm2', 'FNb'), ('subsection*', 'm3'), ('section', 'm4'), ('subsubsection', 'm5', 'FNc'), ('section*', 'm6')]),
+    'book': ('book', [('-', 'm0'), ('chapter', 'm1'), ('section', 'm2'), ('subsection', 'm3', 'FNa'), ('chapter', 'm4'), ('section', 'm5'), ('chapter*', 'm6', 'FNb')]),
     'flat': ('article', [('-', 'm0'), ('-', 'm1')]),
     'sections': ('article', [('section', 'm1'), ('section', 'm2'), ('section', 'm3')]),
 }
@@ -46,6 +47,9 @@ TEMPLATES = {
     'title': 'index [$title, sect$num]',
     'single': 'onefile',
 }
+
+
+EXT = {'default': '.html', 'title': '.html', 'static-num': '.xhtml'}      # the renderer's file extension, per template (others: none)
 
 
 def reset():
@@ -67,7 +71,19 @@ class Rec(R.Renderer):
         walk(document)
         docs = [f for n, f in self.record if n.nodeName == 'document']
         self.docfile = docs[0] if docs else None
+        # footnote texts are handed to the templates by the unit that produces the file: who lists which footnote
+        self.footnotes = []
+        holders = [n for n, f in self.record if f is not None]
+        for fn in document.userdata.get('footnotes', []):
+            h = fn.parentNode
+            while h is not None and getattr(h, 'filename', None) is None:
+                h = h.parentNode
+            self.footnotes.append((fn.textContent.strip(), h, [n for n in holders if any(x is fn for x in n.footnotes)]))
         return R.Renderer.cleanup(self, document, files, postProcess=postProcess)
+
+
+def _fnword(m):
+    return 'fnword' + m[2:]
 
 
 def h_split(e, skel, tmpl, ntitle=2):
@@ -91,11 +107,12 @@ def h_split(e, skel, tmpl, ntitle=2):
             continue
         starred = cmd.endswith('*')
         name = cmd.rstrip('*')
-        if tmpl == 'title' and k == 0:
+        if tmpl == 'title' and k <= 1:
+            # the first two titles are symbolic (the second over a smaller alphabet): equal titles, titles made of forbidden characters only
             cs = []
             for i in range(ntitle):
                 c = e.char('t%d_%d' % (k, i), 32, 124)
-                e.assume(e.one_of(c, 'a (|'))
+                e.assume(e.one_of(c, 'a (|' if k == 0 else 'a '))
                 cs.append(c)
             title = api.cat(['T'] + cs)
         else:
@@ -105,12 +122,12 @@ def h_split(e, skel, tmpl, ntitle=2):
             expect_units.append(['document', None, False, [], None])
         body = []
         for m in marks:
-            if m == 'FN':
-                body.append('\\footnote{fnword}')
+            if m.startswith('FN'):
+                body.append('\\footnote{%s}' % _fnword(m))
             else:
                 body.append(m + ' ')
         parts += ['\\%s{' % cmd, title, '}'] + body
-        cur = [name, LEVELS[name], starred, ['fnword' if m == 'FN' else m for m in marks], title]
+        cur = [name, LEVELS[name], starred, [_fnword(m) if m.startswith('FN') else m for m in marks], title]
         expect_units.append(cur)
     parts.append('\\end{document}')
     try:
@@ -121,6 +138,7 @@ def h_split(e, skel, tmpl, ntitle=2):
     doc.config['files']['split-level'] = split
     doc.config['files']['filename'] = TEMPLATES[tmpl]
     r = Rec()
+    ext = r.fileExtension = EXT.get(tmpl, '')
     d = RC.workdir()
     cwd = os.getcwd()
     os.chdir(d)
@@ -166,7 +184,11 @@ def h_split(e, skel, tmpl, ntitle=2):
         for j in range(i + 1, len(allnames)):
             e.check(api.not_(eq(allnames[i], allnames[j])), 'two units share the output file name', 'filename-duplicate')
     for nm in allnames:
-        e.check(api.all_([e.none_of(c, BAD) for c in api.chars(nm)]), 'output file name contains a forbidden character', 'filename-badchar')
+        cs = api.chars(nm)
+        if ext:
+            e.check(len(cs) > len(ext) and api.all_([eq(a, b) for a, b in zip(cs[-len(ext):], ext)]), 'output file name lacks the renderer\'s extension %r' % ext, 'filename-extension')
+            cs = cs[:-len(ext)]
+        e.check(api.all_([e.none_of(c, BAD) for c in cs]), 'output file name contains a forbidden character', 'filename-badchar')
     # every marker exactly once, in its file, in document order
     got_files = {(os.path.basename(k) if isinstance(k, str) else k): v for k, v in cap.files.items()}
     for fname, marks in expected_content.items():
@@ -197,7 +219,13 @@ def h_split(e, skel, tmpl, ntitle=2):
         for m in u[3]:
             e.check(alltext.count(m) == 1, 'marker %r occurs %d times in the output files' % (m, alltext.count(m)), 'content-repeated' if alltext.count(m) > 1 else 'content-missing')
     e.check(len(got_files) == len(allnames), '%d files written, %d units open a file' % (len(got_files), len(allnames)), 'file-count')
-    e.observe([sorted(k for k in got_files if isinstance(k, str)), len(got_files)])
+    # every footnote is listed by exactly the unit that produces the file its mark is in
+    nfn = sum(1 for u in expect_units for m in u[3] if m.startswith('fnword'))
+    e.check(len(r.footnotes) == nfn, '%d footnotes recorded, %d written' % (len(r.footnotes), nfn), 'footnote-lost')
+    for word, holder, listed_by in r.footnotes:
+        e.check(holder is not None and len(listed_by) == 1 and listed_by[0] is holder, 'footnote %r is listed by %d file-producing units (%s); its mark is in the file of <%s>'
+                % (word, len(listed_by), ', '.join(n.nodeName for n in listed_by), None if holder is None else holder.nodeName), 'footnote-lost' if not listed_by else 'footnote-repeated')
+    e.observe([list(got_files), len(got_files)])
     if len(allnames) >= 2:
         e.nontriv()
 
@@ -212,7 +240,7 @@ def h_stable(e, skel, tmpl):
             if u[0] == '-':
                 parts.append(' '.join(u[1:]) + ' ')
             else:
-                parts += ['\\%s{Title %d}' % (u[0], k)] + [m + ' ' for m in u[1:] if m != 'FN']
+                parts += ['\\%s{Title %d}' % (u[0], k)] + [m + ' ' for m in u[1:] if not m.startswith('FN')]
         parts.append('\\end{document}')
         doc, out = RC.parse(e, parts)
         split = e.int('split', -10, 6)
